@@ -12,6 +12,7 @@ import (
 func init() {
 	register("C10", func(c *core.Ctx, tier string) {
 		wsInflatedBound(c, "C10.9")
+		v3BinaryPayloadCodec(c, "C10.10", true)
 		pollingEffects(c, "C10.6")
 		accessorAgreement(c, "C10.5")
 		c10BoundedBody(c, "C10.1")
